@@ -132,7 +132,8 @@ def run(ctx, rep):
     if len(conds) == 2:
         a, b2 = conds["fill_struct_key_holder_data"], conds["fill_struct_key_holder_type"]
         norm = lambda l: [("kind" if x in ("get_kind", "STRUCTURE", "kind") else x) for x in l]
-        rep.add("R11c", "key_and_instance_handle", "the type walk and the data walk test the same conditions in the same order", norm(a) == norm(b2),
+        # the order of side-effect free tests inside a conjunction is not behaviour: the two walks must test the same conditions
+        rep.add("R11c", "key_and_instance_handle", "the type walk and the data walk test the same conditions", sorted(set(norm(a))) == sorted(set(norm(b2))),
                 "data walk tests %s, type walk tests %s" % (a, b2))
     # R11e: key-only changes (dispose / unregister) carry the serialized key holder, which is what a reader without the key hash
     # deserializes with the key holder type to derive the handle
